@@ -28,7 +28,7 @@ use std::{io::Cursor, sync::mpsc, time::Duration};
 
 use c2pa::{status_tracker::StatusTracker, verif_hooks::c18 as hook, Builder, BuilderIntent, Context, EphemeralSigner};
 use hook::{BMFFBox, BoxReader, JUMBFSuperBox};
-use vh::common::{fixtures, hex, main_with, Rng, Run};
+use vh::common::{fixtures, guarded, hex, main_with, Rng, Run};
 
 fn main() {
     let args: Vec<String> = std::env::args().collect();
@@ -159,8 +159,12 @@ fn dump_super(sb: &JUMBFSuperBox, depth: usize, sh: &mut Shape) -> String {
             // the accessor path of re-serialisation (`Store::get_assertion_from_jumbf_store` reads `media_type()`,
             // `add_assertion_to_jumbf_store` builds the box again with `new`): identity on the written bytes
             let interior_nul = pl.len() >= 2 && pl[1..pl.len() - 1].contains(&0);
-            if !pl.is_empty() && pl[0] <= 1 && !interior_nul {
-                let rebuilt = hook::JUMBFEmbeddedFileDescriptionBox::new(m.media_type(), if pl[0] == 1 { Some(m.file_name().unwrap_or_default()) } else { None });
+            // judged on boxes of the shape the SDK itself writes for a media type without file name: toggle 0, one
+            // terminating NUL, valid UTF-8 (a lossy conversion of invalid UTF-8, a missing terminator or a file-name
+            // toggle without a file name are reader quirks covered by the model comparison, not by this oracle)
+            let sdk_shape = pl.len() >= 2 && pl[0] == 0 && pl.last() == Some(&0) && std::str::from_utf8(&pl[1..pl.len() - 1]).is_ok();
+            if sdk_shape && !interior_nul {
+                let rebuilt = hook::JUMBFEmbeddedFileDescriptionBox::new(m.media_type(), None);
                 if written_payload(&rebuilt) != pl {
                     sh.bfdb_accessor = true;
                 }
@@ -915,6 +919,25 @@ fn box_oracle(run: &mut Run, idx: usize, sh: &Shape, p: &Parsed, tag: &str) {
     }
 }
 
+/// Labels of every JUMBF description box found in `x` (plain scan for `jumd` + 16-byte UUID + toggles + NUL-terminated label).
+fn jumd_labels_of(x: &[u8]) -> Vec<Vec<u8>> {
+    let mut v = vec![];
+    let mut i = 0;
+    while i + 4 <= x.len() {
+        if &x[i..i + 4] == b"jumd" && i + 21 <= x.len() {
+            let toggles = x[i + 20];
+            if toggles & 0x02 != 0 {
+                let s = i + 21;
+                if let Some(e) = x[s..].iter().position(|b| *b == 0) {
+                    v.push(x[s..s + e].to_vec());
+                }
+            }
+        }
+        i += 1;
+    }
+    v
+}
+
 /// store-level oracle for a byte string; `produced` = the SDK produced exactly these bytes
 fn store_case(run: &mut Run, ctl: &mut Ctl, idx: usize, x: &[u8], produced: bool, name: &str) {
     let xv = x.to_vec();
@@ -924,7 +947,11 @@ fn store_case(run: &mut Run, ctl: &mut Ctl, idx: usize, x: &[u8], produced: bool
             run.count("store_rejected");
             // fixture assets of SDK pre-releases are legitimately refused (PrereleaseError …)
             if produced && !name.starts_with("fixture:") {
-                run.fail(idx, "store-unreadable", format!("{name}: a store the SDK produced is rejected by from_jumbf: {c}"));
+                // an assertion label containing '=' is a finding of its own (the JUMBF URI helpers split at '='):
+                // keyed separately so that any other unreadable store is still reported
+                let eq_label = jumd_labels_of(x).iter().any(|l| l.contains(&b'='));
+                let class = if eq_label && c.contains("AssertionMissing") { "store-unreadable:label-with-equals-sign" } else { "store-unreadable" };
+                run.fail(idx, class, format!("{name}: a store the SDK produced is rejected by from_jumbf: {c}"));
             }
         }
         Out::Done(StoreRt::SerFailed(c)) => {
@@ -1269,7 +1296,19 @@ fn claim_stores(run: &mut Run, rng: &mut Rng) -> Vec<Made> {
             if r.chance(1, 2) {
                 // a caller-chosen label over the wide alphabet (no `__`, which is the instance separator)
                 let l = format!("Org.Verif.{}", gen_text(&mut r, 10).replace("__", "_x").replace('/', "-"));
-                if hook::claim_add_user_assertion(&mut c, &l, "{\"b\":2}").is_err() { run.count("claim_label_refused_by_api"); }
+                // the claim API is tried on a throw-away claim first: a panic there (an SDK defect of its own,
+                // see the C10 finding about labels whose last component starts with a multi-byte character)
+                // must not take the whole run down
+                let probe = guarded(std::panic::AssertUnwindSafe(|| {
+                    let mut t = hook::Claim::new("verif/0.1", None, 2);
+                    hook::claim_add_user_assertion(&mut t, &l, "{\"b\":2}").is_ok()
+                }));
+                match probe {
+                    Err(_) => run.count("claim_label_panics_in_api"),
+                    Ok(_) => {
+                        if hook::claim_add_user_assertion(&mut c, &l, "{\"b\":2}").is_err() { run.count("claim_label_refused_by_api"); }
+                    }
+                }
             }
             if r.chance(1, 2) {
                 ok &= hook::claim_add_user_cbor_assertion(&mut c, "org.verif.c", vec![0xa1, 0x61, 0x6b, 0x18, r.next() as u8]).is_ok();
